@@ -154,9 +154,11 @@ def generate(prop, rng):
         if faulty and kind in ("stage", "xfer", "index_save", "stage_file") and rng.random() < 0.5:
             op["fault"] = {
                 "nth": rng.randint(1, 6),
-                "stage": rng.choice(["create", "mid", "rename", "put_lost", "ack_lost", "protect", "protect"]),
+                "stage": rng.choice(["create", "mid", "rename", "put_lost", "ack_lost", "protect", "protect", "get_mid", "get_mid"]),
                 "exc": rng.choice(["EIO", "ENOSPC", "ConnectionError"]),
             }
+            if kind == "xfer" and op.get("src") == "R" and op.get("dest") != "R" and rng.random() < 0.6:
+                op["fault"]["stage"] = "get_mid"  # a download that breaks off half way
             if op["fault"]["stage"] == "protect":
                 # chmod of a placed object fails (Samba / foreign owner): tolerated by the library, the
                 # object stays writable; 1-3 objects are hit
@@ -295,6 +297,7 @@ def _apply_fault(ctx, op):
         "put_lost": ("r_put",),
         "ack_lost": ("r_put_ack",),
         "protect": ("chmod",),
+        "get_mid": ("r_get_mid",),
     }[f["stage"]]
     ctx.seam.faults = [{"at": at, "match": None, "nth": f["nth"], "exc": f["exc"], "name": f["stage"], "count": f.get("count", 1)}]
 
